@@ -436,63 +436,64 @@ Section Programs.
     | _ => true
     end.
 
-  Definition run_op (lo : local) (o : op) : prog local :=
+  (** [None]: a fuelled loop ran out of fuel; the thread stops (never happens in the harness) *)
+  Definition run_op (lo : local) (o : op) : prog (option local) :=
     match o with
     | OAttach =>
         Emit [cli "attach" []]
           (match l_rec lo with
-           | Some _ => Emit [cli "attached" []] (Ret lo)
+           | Some _ => Emit [cli "attached" []] (Ret (Some lo))
            | None =>
                bind alloc_thread_data (fun x =>
                  match x with
-                 | Some r => Emit [cli "attached" []] (Ret (mkLocal (Some r) (fun _ => 0)))
-                 | None => Emit [cli "outoffuel" []] (Ret lo)
+                 | Some r => Emit [cli "attached" []] (Ret (Some (mkLocal (Some r) (fun _ => 0))))
+                 | None => Emit [cli "outoffuel" []] (Ret None)
                  end)
            end)
     | _ =>
         match l_rec lo with
-        | None => Emit [cli "skip" []] (Ret lo)
+        | None => Emit [cli "skip" []] (Ret (Some lo))
         | Some r =>
-            if negb (op_valid o) then Emit [cli "skip" []] (Ret lo)
+            if negb (op_valid o) then Emit [cli "skip" []] (Ret (Some lo))
             else
               match o with
-              | OAttach => Ret lo
+              | OAttach => Ret (Some lo)
               | ODetach =>
                   Emit [cli "detach" []]
                     (bind (free_thread_data r true) (fun _ =>
-                       Emit [cli "detached" []] (Ret local0)))
+                       Emit [cli "detached" []] (Ret (Some local0))))
               | OProtect j k =>
                   Emit [cli "protect" [zn j; zn k]]
                     (bind (protect r j k) (fun x =>
                        match x with
-                       | Some p => Emit [cli "protected" [zn j; p]] (Ret (set_gv lo j p))
-                       | None => Emit [cli "outoffuel" []] (Ret (set_gv lo j 0))
+                       | Some p => Emit [cli "protected" [zn j; p]] (Ret (Some (set_gv lo j p)))
+                       | None => Emit [cli "outoffuel" []] (Ret None)
                        end))
               | OAssign j o =>
                   Emit [cli "assign" [zn j; o]]
                     (bind (if o =? 0 then clear r j else assign r j o) (fun _ =>
-                       Emit [cli "assigned" []] (Ret (set_gv lo j o))))
+                       Emit [cli "assigned" []] (Ret (Some (set_gv lo j o)))))
               | OClear j =>
                   Emit [cli "clear" [zn j]]
-                    (bind (clear r j) (fun _ => Emit [cli "cleared" []] (Ret (set_gv lo j 0))))
+                    (bind (clear r j) (fun _ => Emit [cli "cleared" []] (Ret (Some (set_gv lo j 0)))))
               | OPublish k o =>
                   Emit [cli "publish" [zn k; o]]
                     (Act (a_xchg_src k o) (fun v =>
                        let old := vZ v in
                        Emit [cli "unlinked" [old]]
-                         (if old =? 0 then Ret lo
+                         (if old =? 0 then Ret (Some lo)
                           else Emit [cli "retire" [old]]
-                                 (bind (retire r old) (fun _ => Emit [cli "retired" []] (Ret lo))))))
+                                 (bind (retire r old) (fun _ => Emit [cli "retired" []] (Ret (Some lo)))))))
               | ORetire o =>
-                  if (o <=? 0) || (ARENA <=? o) then Emit [cli "skip" []] (Ret lo)
+                  if (o <=? 0) || (ARENA <=? o) then Emit [cli "skip" []] (Ret (Some lo))
                   else Emit [cli "retire" [o]]
-                         (bind (retire r o) (fun _ => Emit [cli "retired" []] (Ret lo)))
+                         (bind (retire r o) (fun _ => Emit [cli "retired" []] (Ret (Some lo))))
               | OScan =>
-                  Emit [cli "scan" []] (bind (scan r) (fun _ => Emit [cli "scanned" []] (Ret lo)))
-              | OTouch j => Emit [cli "touch" [zn j; l_gv lo j]] (Ret lo)
+                  Emit [cli "scan" []] (bind (scan r) (fun _ => Emit [cli "scanned" []] (Ret (Some lo))))
+              | OTouch j => Emit [cli "touch" [zn j; l_gv lo j]] (Ret (Some lo))
               | OCopy j i =>
                   Emit [cli "copy" [zn j; zn i]]
-                    (bind (copy r j i) (fun _ => Emit [cli "copied" []] (Ret (set_gv lo j (l_gv lo i)))))
+                    (bind (copy r j i) (fun _ => Emit [cli "copied" []] (Ret (Some (set_gv lo j (l_gv lo i))))))
               end
         end
     end.
@@ -500,7 +501,8 @@ Section Programs.
   Fixpoint run_ops (lo : local) (os : list op) : prog unit :=
     match os with
     | [] => Ret tt
-    | o :: rest => bind (run_op lo o) (fun lo' => run_ops lo' rest)
+    | o :: rest =>
+        bind (run_op lo o) (fun x => match x with Some lo' => run_ops lo' rest | None => Ret tt end)
     end.
 
   Definition thread_prog (os : list op) : Conc.thread G V ev :=
